@@ -214,8 +214,14 @@ def find_rules(prog, R):
                                 if t2.callee and t2.callee.is_('std::ops::Index::index') and Aff.sym(('call', t2.callee.path, by)) == hay and isinstance(a2[1], Agg) and len(a2[1].fields) == 1:
                                     S = a2[1].fields[0]
                 if S is None:
+                    whole = False
+                    for p in ent:
+                        for (bx, tt, a) in p.effects:
+                            if tt is t and isinstance(a[1], Aff) and isinstance(a[1].single(), tuple) and a[1].single()[0] == 'buffer':
+                                whole = True
                     n += 1
-                    R.add('FIND-1', b, 'memchr-on-a-tail-of-the-buffer', False, site(b, t.line), 'cannot see the start offset of the searched slice [UNDECIDED]')
+                    R.add('FIND-1', b, 'memchr-on-a-tail-of-the-buffer', whole, site(b, t.line),
+                          'the whole buffer is searched: the found offset is a buffer offset as it is' if whole else 'cannot see the start offset of the searched slice [UNDECIDED]')
                     continue
                 rebased = None
                 detail = ''
@@ -285,8 +291,10 @@ def chain_rules(prog, R):
         return
     start_loc = _rebase(rloc, ('bp',), BP)
     fl = [b for b in reader_bodies(prog, 'fastq') if any(t.callee and t.callee.is_('memchr::memchr') for _, t in b.calls())]
+    # the line finder = the memchr user that some other reader function calls at least twice (other users of memchr are not this rule's business)
+    fl = [f for f in fl if any(sum(1 for _, t in b.calls() if prog.local_callee_body(t.callee) is f) >= 2 for b in reader_bodies(prog, 'fastq'))]
     if len(fl) != 1:
-        R.anchor_missing('CHAIN-1', 'the FASTQ line search (single function calling memchr)')
+        R.anchor_missing('CHAIN-1', 'the FASTQ line search (the function calling memchr that the record search calls once per line)')
         return
     finder = fl[0]
     users = [b for b in reader_bodies(prog, 'fastq') if sum(1 for _, t in b.calls() if prog.local_callee_body(t.callee) is finder) >= 2 and not b.cfg.natural_loops()]
